@@ -484,7 +484,7 @@ def triage(rep, results, info=None, replayer=None):
         save_baseline(prop, newbase)
         base = newbase
     if base is not None:
-        missing = [b for b in base if b not in all_labels and not any(
+        missing = [b for b in base if '/safety:' not in b and b not in all_labels and not any(
             b.startswith('%s/%s/' % (prop, r.job.name)) or ('/%s/' % r.job.name.split('_', 1)[-1]) in b
             for r in results if r.status == 'inconclusive')]
         if missing and not rep.partial:
